@@ -87,4 +87,8 @@ theorem invAcc_reachable (cfg : Cfg) (s : St) (h : Reachable cfg s) : InvAcc s :
   rcases h3 p hp with hp | hp
   · exact h1 x (hi.sub p hp x hx)
   · rw [hp] at hx; exact h1 x hx
+theorem send_accepted (cfg : Cfg) (s : St) (x : Nat) :
+    (send cfg s x).accepted = s.accepted ∨ (send cfg s x).accepted = s.accepted ++ [x] := by
+  unfold send
+  by_cases hc : s.pending.length ≥ cfg.cap <;> by_cases ho : s.isOpen <;> simp [hc, ho, truncate, push]
 end EmitModel.Batcher
